@@ -58,13 +58,13 @@ def gen(ctx, i):
     c = cgroup.gen_case(ctx.rng, backend=P.BACKENDS[i % 3], nevents=1)
     c.__class__ = SCase
     c.explicit = None
-    r = ctx.rng.random()
-    if r < 0.3:
+    kind = i % 20  # 0..5: explicit ResultTTree (30%); 0 and 1: with a wrong number of labels (one too many / one too few)
+    if kind < 6:
         names, types = qtypes.columns(c.query)
         newnames = [ctx.rng.choice(["pt", "eta", "n", "jetPt", "x"]) + str(k) for k in range(len(names))]
-        mismatch = r < 0.06
+        mismatch = kind < 2
         if mismatch:
-            newnames = newnames + ["extra"] if ctx.rng.random() < 0.5 or len(newnames) == 1 else newnames[:-1]
+            newnames = newnames + ["extra"] if kind == 0 else newnames[:-1]  # (a bare value with NO label at all included)
         c.explicit = (newnames, ctx.rng.choice(["mytree", "t", "analysis_tree", "trees/nominal", "a b", "T-1.x", "/t"]), mismatch)
         # AsROOTTTree understands a sequence of tuples or of single items (README), not of dicts
         if c.query["f"]["k"] in ("dict", "list"):
